@@ -199,3 +199,23 @@ std::pair<bool, size_t> _Prime_rehash_policy::_M_need_rehash(size_t n_bkt, size_
 }
 }  // namespace __detail
 }  // namespace std
+
+// ---- std::ctype<char> in the classic "C" locale: std::use_facet<std::ctype<char>>(loc) is answered by the engine with the address of
+// this object.  Only the virtual interface is provided (Itanium vtable layout of std::ctype<char>: D1, D0, do_toupper(char),
+// do_toupper(char*, const char*), do_tolower(char), do_tolower(char*, const char*), do_widen(char), do_widen(range), do_narrow(char, char),
+// do_narrow(range)); enough for std::toupper/tolower(c, loc) and boost::algorithm::iequals / to_lower / to_upper.
+extern "C" {
+static char vrt_ct_toupper(void *, char c) { return (c >= 'a' && c <= 'z') ? (char)(c - 32) : c; }
+static const char *vrt_ct_toupper_r(void *, char *lo, const char *hi) { for (; lo < hi; ++lo) *lo = vrt_ct_toupper(0, *lo); return hi; }
+static char vrt_ct_tolower(void *, char c) { return (c >= 'A' && c <= 'Z') ? (char)(c + 32) : c; }
+static const char *vrt_ct_tolower_r(void *, char *lo, const char *hi) { for (; lo < hi; ++lo) *lo = vrt_ct_tolower(0, *lo); return hi; }
+static char vrt_ct_widen(void *, char c) { return c; }
+static const char *vrt_ct_widen_r(void *, const char *lo, const char *hi, char *to) { for (; lo < hi; ++lo, ++to) *to = *lo; return hi; }
+static char vrt_ct_narrow(void *, char c, char) { return c; }
+static const char *vrt_ct_narrow_r(void *, const char *lo, const char *hi, char, char *to) { for (; lo < hi; ++lo, ++to) *to = *lo; return hi; }
+static void vrt_ct_dtor(void *) {}
+__attribute__((used)) void *vrt_ctype_vtable[12] = {0, 0, (void *)vrt_ct_dtor, (void *)vrt_ct_dtor, (void *)vrt_ct_toupper, (void *)vrt_ct_toupper_r, (void *)vrt_ct_tolower, (void *)vrt_ct_tolower_r,
+                              (void *)vrt_ct_widen, (void *)vrt_ct_widen_r, (void *)vrt_ct_narrow, (void *)vrt_ct_narrow_r};
+struct VrtFakeCtype { void **vptr; unsigned char rest[1024]; };
+__attribute__((used)) VrtFakeCtype vrt_fake_ctype = { &vrt_ctype_vtable[2], {0} };
+}
